@@ -73,6 +73,8 @@ func VerifRender(toks []VerifStubTok) string {
 			s += "\"" + t.Value + "\""
 		case Underscore:
 			s += "_"
+		case BitAnd:
+			s += "&" // TokenKind.String has no case for BitAnd
 		default:
 			s += t.Kind.String()
 		}
